@@ -123,6 +123,12 @@ add('C02',
     'Soundness of liveness/definedness on all programs is decided only as mechanism (C06, C07); what a backend does with the state is out of scope.',
     'DESIGN.md section 4, C02')
 
+add('C01',
+    'callback-event automata of the operator fallbacks compared with reference automata of the Python constructs by DFA equivalence (through the dispatchers); pass-order constraints computed from templates and annotation reads/writes and checked against transform_ast; traversal analysis of block-restructuring passes over every statement-list field of the grammar; ASDL field-type abstract interpretation of converters, analyses and CFG builder; resolution and signature binding of every emitted ag__ name; template-level control-flag discipline with CFG path counting; set-algebra bound for Undefined placeholders; closure-liveness formula',
+    'Decides necessary structural conditions of semantic preservation: the ten operator fallbacks (if/while/for statements, and/or/not, eq/not_eq, conditional expression, function-scope ret) have exactly the event language and result values of the constructs they replace, ld only raises for Undefined; all pass-order constraints derived from what passes emit, move, bind and annotate hold; continue/return/list passes route every statement list of def/for/while/if/with/try/except through their guarded block visitor; no handler mistreats an AST field type; every emitted ag__.X exists and the call binds; control flags are tested before user tests, initialised before use, and loops with lowered jumps test the flag on every path; Undefined is never assigned to defined/global/nonlocal/composite names; closures keep their free variables live. One LISTS-only defect is a listed known finding (F13).',
+    'Does not decide the guard-propagation algorithms of the jump lowerings nor value-level equivalence of whole converted programs; reference automata are the Python language reference semantics as written in the checker.',
+    'DESIGN.md section 4, C01')
+
 NOT_APPLICABLE = {
     'C12': 'quantifies over run-time tracebacks, generated line layout and source-map contents, which exist only after the pipeline has run on a program; the only shape-level clause (exception re-creation table) is too small a part to claim the property through (DESIGN.md section 5)',
 }
